@@ -160,6 +160,10 @@ pub struct RefOut {
     pub exact: bool,
     /// tags the block itself must add: per port (index, key, value)
     pub added_tags: Option<Vec<Vec<(usize, String, TagValue)>>>,
+    /// the block never ends: `outs` holds one period and the observed output must repeat it
+    pub prefix_only: bool,
+    /// expected content of the sink's store
+    pub sink: Option<Vec<u64>>,
 }
 
 fn exact(outs: Vec<PortData>) -> Option<RefOut> {
@@ -167,6 +171,8 @@ fn exact(outs: Vec<PortData>) -> Option<RefOut> {
         outs,
         exact: true,
         added_tags: None,
+        prefix_only: false,
+        sink: None,
     })
 }
 
@@ -254,6 +260,8 @@ pub fn reference(spec: &BlockSpec, inputs: &[InputData], script_tags: &[(usize, 
                 outs: vec![s(outv)],
                 exact: true,
                 added_tags: if matches!(spec, CacTag { .. }) { Some(vec![tags]) } else { None },
+                prefix_only: false,
+                sink: None,
             })
         }
         (TeeU8, [D::U8(x)]) => exact(vec![s(bits_of(x)), s(bits_of(x))]),
@@ -294,6 +302,8 @@ pub fn reference(spec: &BlockSpec, inputs: &[InputData], script_tags: &[(usize, 
                 outs: vec![s(v)],
                 exact: true,
                 added_tags: Some(vec![tags]),
+                prefix_only: false,
+                sink: None,
             })
         }
         (BurstTaggerU32 { threshold }, [D::U32(x), D::F32(t)]) => {
@@ -311,6 +321,8 @@ pub fn reference(spec: &BlockSpec, inputs: &[InputData], script_tags: &[(usize, 
                 outs: vec![s(bits_of(&x[..n]))],
                 exact: true,
                 added_tags: Some(vec![tags]),
+                prefix_only: false,
+                sink: None,
             })
         }
         (ToTextU8 { .. }, ins) | (ToTextF32 { .. }, ins) => {
@@ -342,8 +354,40 @@ pub fn reference(spec: &BlockSpec, inputs: &[InputData], script_tags: &[(usize, 
                 outs: vec![s(out)],
                 exact: false,
                 added_tags: None,
+                prefix_only: false,
+                sink: None,
             })
         }
+        (VectorSourceU8 { len, repeat }, []) => {
+            let data: Vec<u64> = crate::catalog::vector_source_data(*len).iter().map(|b| *b as u64).collect();
+            // infinite: `outs` holds one period, compared cyclically
+            let (reps, prefix) = if *repeat == 255 { (1usize, true) } else { (*repeat as usize, false) };
+            let mut out = Vec::new();
+            if !data.is_empty() {
+                for _ in 0..reps {
+                    out.extend(data.iter().copied());
+                    if out.len() > 400_000 {
+                        break;
+                    }
+                }
+            }
+            Some(RefOut { outs: vec![s(out)], exact: true, added_tags: None, prefix_only: prefix, sink: None })
+        }
+        (ConstantSourceF32 { val }, []) => Some(RefOut {
+            outs: vec![s(vec![val.bits(); 1])],
+            exact: true,
+            added_tags: None,
+            prefix_only: true,
+            sink: None,
+        }),
+        (NullSinkU8, [D::U8(_)]) => Some(RefOut { outs: vec![], exact: true, added_tags: None, prefix_only: false, sink: None }),
+        (VectorSinkU8 { max }, [D::U8(x)]) => Some(RefOut {
+            outs: vec![],
+            exact: true,
+            added_tags: None,
+            prefix_only: false,
+            sink: Some(x.iter().take(*max as usize).map(|b| *b as u64).collect()),
+        }),
         (StreamToPduU8 { max, tail }, [D::U8(x)]) => stream_to_pdu(&bits_of(x), script_tags, *max as usize, *tail as usize),
         (StreamToPduF32 { max, tail }, [D::F32(x)]) => stream_to_pdu(&bits_of(x), script_tags, *max as usize, *tail as usize),
         _ => None,
@@ -418,5 +462,7 @@ fn stream_to_pdu(x: &[u64], tags: &[(usize, String, TagValue)], max: usize, tail
         outs: vec![PortData::Packets(pdus)],
         exact: true,
         added_tags: None,
+        prefix_only: false,
+        sink: None,
     })
 }
